@@ -2,5 +2,5 @@ INIT Init
 NEXT Next
 CONSTANTS
   MaxSupp = 1
-INVARIANTS RefEqOp NonInterference Emit
+INVARIANTS RefEqOp NonInterference NoLeak Emit
 CHECK_DEADLOCK FALSE
